@@ -69,7 +69,8 @@ def audit(case, seq, data: bytes) -> list[tuple[str, str]]:
     cls = case["cls"]
     rdflib_api = case.get("api") == "rdflib"
     frames = jwire.read_delimited(data) if case["delimited"] else jwire.read_single(data)
-    dec, per = jspec.decode_frames(frames)
+    # (bracketing of graphs is C03's business: audit compactness even if a graph is re-announced)
+    dec, per = jspec.decode_frames(frames, strict_graphs=False)
     fails: list[tuple[str, str]] = []
     st_i = 0
     starts = 0
